@@ -46,6 +46,12 @@ var commonAssumptions = []string{
 
 func init() {
 	register(&Def{
+		ID: "C13", Level: "exploration", MinSigs: 40,
+		Rule:        "ledgers of 0..~150 entries are grown by C12's mixed histories (entries are updated many times, not only inserted) over 4 source channels; at checkpoints the exported statistics are the ground truth and, for every protocol filter x {amounts, counts} x {by source, by destination}: next-key walks with limits 1,2,3,n-1,n/2,random,n,n+1,1000 forward and reverse, offset walks, count_total, the unpaginated listing - each must visit exactly the matching entries once (multiset equality, reverse = mirror) - plus direct lookups of every present key and of absent neighbours (other denom, other channel, other counterparty). distinct = (listing, size bucket, limit relation, direction) and lookup classes",
+		Assumptions: append([]string{"ground truth = exported genesis, itself tied to the observed transfers by C12's shadow ledger"}, commonAssumptions...),
+		Run:         withLab(world.Config{Channels: 4}, CheckC13),
+	})
+	register(&Def{
 		ID: "C12", Level: "exploration", MinSigs: 30,
 		Rule:        "mixed histories of 200-500 (thorough: up to 2000) operations on one accumulating state: successful and refused orbiter transfers over 4 source channels x calibrated and hostile destinations x 3 denoms x fee settings, non-orbiter receives, deposits, pause/unpause messages; a shadow ledger is folded only from ledger-observed successful transfers (incoming = packet amount, outgoing = model A - fees) and compared as whole maps with the exported statistics every 5 operations; per operation the statistics delta must be exactly the model entry on success and empty otherwise; in - out = fees per route; plus a history in real blocks (mode T) and a scenario that drives one route past 2^256. distinct = (source channel, denom, destination, fee?) routes that accumulated",
 		Assumptions: append([]string{"only the fee action exists on the native wiring, so denomination-changing histories (two entries per transfer) are covered by C06's alternative keeper, not here"}, commonAssumptions...),
